@@ -39,6 +39,7 @@ a_u8 a_crc8(a_u8 const table[0x100], void const *pdata, a_size nbyte, a_u8 value
     for (; nbyte; --nbyte)
     {
         value = table[value ^ *p++];
+        A_VERIF_HOOK(crc8_step)
     }
     return value;
 }
@@ -82,6 +83,7 @@ a_u16 a_crc16m(a_u16 const table[0x100], void const *pdata, a_size nbyte, a_u16 
     for (; nbyte; --nbyte)
     {
         value = (a_u16)((value << 8) ^ table[((value >> 8) ^ *p++) & 0xFF]);
+        A_VERIF_HOOK(crc16m_step)
     }
     return value;
 }
@@ -91,6 +93,7 @@ a_u16 a_crc16l(a_u16 const table[0x100], void const *pdata, a_size nbyte, a_u16 
     for (; nbyte; --nbyte)
     {
         value = (a_u16)((value >> 8) ^ table[(value ^ *p++) & 0xFF]);
+        A_VERIF_HOOK(crc16l_step)
     }
     return value;
 }
@@ -134,6 +137,7 @@ a_u32 a_crc32m(a_u32 const table[0x100], void const *pdata, a_size nbyte, a_u32 
     for (; nbyte; --nbyte)
     {
         value = (value << 8) ^ table[((value >> 24) ^ *p++) & 0xFF];
+        A_VERIF_HOOK(crc32m_step)
     }
     return value;
 }
@@ -143,6 +147,7 @@ a_u32 a_crc32l(a_u32 const table[0x100], void const *pdata, a_size nbyte, a_u32 
     for (; nbyte; --nbyte)
     {
         value = (value >> 8) ^ table[(value ^ *p++) & 0xFF];
+        A_VERIF_HOOK(crc32l_step)
     }
     return value;
 }
@@ -186,6 +191,7 @@ a_u64 a_crc64m(a_u64 const table[0x100], void const *pdata, a_size nbyte, a_u64 
     for (; nbyte; --nbyte)
     {
         value = (value << 8) ^ table[((value >> 56) ^ *p++) & 0xFF];
+        A_VERIF_HOOK(crc64m_step)
     }
     return value;
 }
@@ -195,6 +201,7 @@ a_u64 a_crc64l(a_u64 const table[0x100], void const *pdata, a_size nbyte, a_u64 
     for (; nbyte; --nbyte)
     {
         value = (value >> 8) ^ table[(value ^ *p++) & 0xFF];
+        A_VERIF_HOOK(crc64l_step)
     }
     return value;
 }
